@@ -9,8 +9,11 @@ EXTENDS Integers, Sequences, FiniteSets
 
 BitEq(x, y)  == \/ (x.c = y.c /\ x.b1 = y.b1 /\ x.b2 = y.b2 /\ x.b3 = y.b3)
                 \/ (x.c = "fin" /\ y.c = "fin" /\ x.m9 = 0 /\ y.m9 = 0 /\ x.b2 = 0 /\ y.b2 = 0 /\ x.b3 = 0 /\ y.b3 = 0)  \* +0.0 / -0.0
-Close(x, y)  == (x.c = "nan" /\ y.c = "nan") \/ (x.c = "fin" /\ y.c = "fin" /\ x.m9 - y.m9 <= 1 /\ y.m9 - x.m9 <= 1)
-Leq(x, y)    == x.c = "fin" /\ y.c = "fin" /\ x.m9 <= y.m9 + 1
+(* m9 is clipped to +-2*10^9 (values beyond +-2); there the comparison falls back to m6 (1e-6)   *)
+Big(x) == x.m9 >= 2000000000 \/ x.m9 <= -2000000000
+Close(x, y)  == \/ (x.c = "nan" /\ y.c = "nan")
+                \/ (x.c = "fin" /\ y.c = "fin" /\ x.m9 - y.m9 <= 1 /\ y.m9 - x.m9 <= 1 /\ x.m6 - y.m6 <= 1 /\ y.m6 - x.m6 <= 1)
+Leq(x, y)    == x.c = "fin" /\ y.c = "fin" /\ (IF Big(x) \/ Big(y) THEN x.m6 <= y.m6 + 1 ELSE x.m9 <= y.m9 + 1)
 IsVal(x, n, d) == x.c = "fin" /\ x.m9 * d - n * 1000000000 <= d /\ n * 1000000000 - x.m9 * d <= d   \* x = n/d to 1e-9
 
 (* a check is <<op, i, j>>: compare a[i] with b[j] *)
